@@ -631,6 +631,10 @@ def main():
     "per worker process for lookups")
   from vlib.pysym import runner
   runner.run_property(rep, "contracts.C13_sort", bounded=False)
+  # the index behind lookups: twowaymap.TwoWayMap against its abstract relation, with the
+  # representation invariant (both dicts describe the same relation, no empty bin), for the
+  # many-to-many and the many-to-one configurations lookup.py constructs
+  runner.run_property(rep, "contracts.C13_twowaymap", bounded=False)
   proof_cov = dict(rep.coverage)
 
   # exhaustive small scope
